@@ -122,14 +122,56 @@ def closedList (names : List String) (impl : Option (List Nat)) (spec : Option (
   | some _, none => [("defined", false)]
   | none, _ => []
 
+
+/-! ### signing sites -/
+
+def siteOf : String → Option (SignSite × String)
+  | "s2roots" => some (.rhp2SectorRoots, "rhp2.rpcSectorRoots")
+  | "s2read" => some (.rhp2Read, "rhp2.rpcRead")
+  | "s2write" => some (.rhp2Write, "rhp2.rpcWrite")
+  | "s3pay" => some (.rhp3Pay, "rhp3.processContractPayment")
+  | "s3fund" => some (.rhp3Fund, "rhp3.processFundAccountPayment")
+  | "s3exec" => some (.rhp3Finalize, "rhp3.finalize")
+  | _ => none
+
+def replaceVals (l : List Out) (vs : List Nat) : List Out :=
+  List.zipWith (fun o v => { o with val := v }) l vs
+
+/-- the contract stored by AddContract / RenewContract must be the requested one (as its initial revision) -/
+def sameContract (f n : Rev) : Bool :=
+  n.revNo == 1 && n.wStart == f.wStart && n.wEnd == f.wEnd && n.unlockHash == f.unlockHash && n.filesize == f.filesize
+    && n.root == f.root && n.valid == f.valid && n.missed == f.missed
+
+/-- `signsites list=[file:fn:n,…]`: the functions of rhp/v2, rhp/v3 that call `SignHash`, read from the
+source tree, against the model's table `signingSites` -/
+def signSitesStep (d : DState) (l : Line) : DState × List Verdict :=
+  match getStrList l.obs "list" with
+  | none => (d, [.badline "signsites list"])
+  | some items =>
+    let parsed := items.map fun it => match it.splitOn ":" with
+      | [file, fn, n] => (file, fn, n.toNat?.getD 0)
+      | _ => (it, "", 0)
+    let extra : List Verdict := parsed.filterMap fun (file, fn, n) =>
+      if siteCount file fn == n then none
+      else some (.mismatch s!"signsites/{file}:{fn}" (toString (siteCount file fn)) (toString n))
+    let missing : List Verdict := signingSites.filterMap fun i =>
+      if parsed.any (fun (file, fn, _) => file == i.file && fn == i.fn) then none
+      else some (.mismatch s!"signsites/{i.file}:{i.fn}" (toString (siteCount i.file i.fn)) "0")
+    (d, extra ++ missing)
+
 def step (d : DState) (l : Line) : DState × List Verdict :=
   let fx := d.fx
+  if l.op == "signsites" then signSitesStep d l else
   match getStr l.obs "res" with
   | none => (d, [.badline "no res"])
   | some res =>
     let ret := (getStr l.obs "ret").getD ""
     let retL := getNatList l.obs "ret"
     let bad : DState × List Verdict := (d, [.badline "fields"])
+    -- bs: 1 = the renter's clearing / final revision signature is invalid, 2 = the one over the new contract
+    let bs := (getNat l.args "bs").getD 0
+    let sg : Sigs := { clearing := bs != 1, contract := bs != 2 }
+    let sigClauses : List (String × Bool) := [("clearing_renter_signed_this_revision", bs != 1), ("renter_signed_new_contract", bs != 2)]
     let fin (fn : String) (implRet : String) (model : Res String) (cl closed : List (String × Bool)) :=
       (count d res (cl.length + closed.length), judge fn res implRet model cl closed)
     match l.op with
@@ -228,14 +270,45 @@ def step (d : DState) (l : Line) : DState × List Verdict :=
             (match hostVal f.valid, hostVal f.missed with
              | some vh, some mh => some [(vh - mh) - base, vh - (st.contractPrice + base)] | _, _ => none))
       | _, _, _, _, _, _, _ => bad
+    | "s2roots" | "s2read" | "s2write" | "s3pay" | "s3fund" | "s3exec" =>
+      match siteOf l.op, getRev l.args "c", getRev l.args "p", getNat l.args "sigok", getNat l.args "price", getNat l.args "burn" with
+      | some (site, name), some c, some p, some sigok, some price, some burn =>
+        let i : SiteIn := { cur := c, no := p.revNo, vv := vals p.valid, mv := vals p.missed, price := price, burn := burn,
+                            sigOK := sigok == 1 }
+        let sig := (getNat l.obs "sig").getD 0
+        let amt := (getNat l.obs "amt").getD 0
+        -- rpcWrite and the program finalisation set file size and Merkle root themselves
+        let hostSetsFile := l.op == "s2write" || l.op == "s3exec"
+        let canon (r : Rev) (cr : Nat) : String :=
+          (if hostSetsFile then showRev { r with filesize := 0, root := 0 } else showRev r) ++ "/" ++ toString cr
+        let model : Res String := (signRevise fx site i).bind fun (r, cr) => .ok (canon r cr)
+        -- what the implementation signed: the revision it stored / credited, else (signature verified by the
+        -- renter over it) the current revision with the requested number and values
+        let signed : Option Rev := match getRev l.obs "o" with
+          | some o => some o
+          | none =>
+            if sig == 1 && i.vv.length == c.valid.length && i.mv.length == c.missed.length then
+              some { c with revNo := p.revNo, valid := replaceVals c.valid i.vv, missed := replaceVals c.missed i.mv }
+            else none
+        let implRet := match signed with | some o => canon o amt | none => ""
+        let cl : List (String × Bool) := match signed with
+          | some o => siteClauses site i o amt ++
+              [("signature_over_expected_revision", sig != 2), ("renter_signed_this_revision", i.sigOK)]
+          | none => [("signed_revision_known", false)]
+        fin name implRet model cl []
+      | _, _, _, _, _, _ => bad
     | "rpcform2" =>
       match getRev l.args "f", getNat l.args "rk", getNat l.args "h", getNat l.args "rh", getSettings l.args with
       | some f, some rk, some h, some rh, some st =>
         let rec_ := (getStr l.obs "rec").getD ""
         let recL := getNatList l.obs "rec"
         let locked := match recL with | some (x :: _) => x | _ => 0
-        let model : Res String := (rpcForm2 rh f (10 + rk) h st).bind fun r => .ok (natListStr (recList r))
-        fin "rpcFormContract" rec_ model (contractClauses f h st 0 locked) (closedRec recL (formRecorded f st))
+        let model : Res String := (rpcForm2 rh f (10 + rk) h st sg).bind fun r => .ok (natListStr (recList r))
+        let n := (getRev l.obs "n").getD f    -- the signed initial revision handed to AddContract
+        fin "rpcFormContract" rec_ model
+          (contractClauses n h st 0 locked ++ [("stored_contract_is_request", (getRev l.obs "n").all (sameContract f))]
+            ++ sigClauses.drop 1)
+          (closedRec recL (formRecorded f st))
       | _, _, _, _, _ => bad
     | "rpcrenew2" =>
       match getRev l.args "e", getRev l.args "f", getNatList l.args "fv", getNat l.args "rk", getNat l.args "h",
@@ -244,9 +317,17 @@ def step (d : DState) (l : Line) : DState × List Verdict :=
         let rec_ := (getStr l.obs "rec").getD ""
         let recL := getNatList l.obs "rec"
         let locked := match recL with | some (x :: _) => x | _ => 0
-        let model : Res String := (rpcRenew2 fx rh e f fv (10 + rk) h st).bind fun r => .ok (natListStr (recList r))
+        let model : Res String := (rpcRenew2 fx rh e f fv (10 + rk) h st sg).bind fun r => .ok (natListStr (recList r))
+        let n := (getRev l.obs "n").getD f    -- signed renewal / clearing revisions handed to RenewContract
+        let pay := match renterVal e.valid with
+          | some v => if st.baseRPCPrice > v then v else st.baseRPCPrice
+          | none => 0
+        let clr : List (String × Bool) := match getRev l.obs "x" with
+          | some x => (clearingClauses e x pay).map fun c => ("clearing_" ++ c.1, c.2)
+          | none => []
         fin "rpcRenewAndClearContract" rec_ model
-          (contractClauses f h st (baseCost st.storagePrice e f) locked)
+          (contractClauses n h st (baseCost st.storagePrice e f) locked
+            ++ [("stored_contract_is_request", (getRev l.obs "n").all (sameContract f))] ++ clr ++ sigClauses)
           (closedRec recL (renew2Recorded e f fv st))
       | _, _, _, _, _, _, _ => bad
     | "rpcrenew3" =>
@@ -256,10 +337,14 @@ def step (d : DState) (l : Line) : DState × List Verdict :=
         let rec_ := (getStr l.obs "rec").getD ""
         let recL := getNatList l.obs "rec"
         let locked := match recL with | some (x :: _) => x | _ => 0
-        let model : Res String := (rpcRenew3 fx rh e k f (10 + rk) h st).bind fun r => .ok (natListStr (recList r))
+        let model : Res String := (rpcRenew3 fx rh e k f (10 + rk) h st sg).bind fun r => .ok (natListStr (recList r))
+        let n := (getRev l.obs "n").getD f
+        let x := (getRev l.obs "x").getD k
         fin "handleRPCRenew" rec_ model
-          (contractClauses f h st (st.renewCost + baseCost st.storagePrice e f) locked
-            ++ (clearingClauses e k 0).map fun c => ("clearing_" ++ c.1, c.2))
+          (contractClauses n h st (st.renewCost + baseCost st.storagePrice e f) locked
+            ++ [("stored_contract_is_request", (getRev l.obs "n").all (sameContract f)),
+                ("clearing_stored_is_request", (getRev l.obs "x").all (fun x => showRev x == showRev k))]
+            ++ ((clearingClauses e x 0).map fun c => ("clearing_" ++ c.1, c.2)) ++ sigClauses)
           (closedRec recL (renew3Recorded e k f st))
       | _, _, _, _, _, _, _ => bad
     | _ => (d, [.badline "unknown op"])
